@@ -86,6 +86,9 @@ structure PDef (V : Type) where
   /-- parameters of the `__init__` of an old-style (non VariablePayload) superclass, `class P(VariablePayload, Old)`;
       empty when there is none.  Assumption about `Old.__init__`: it stores every argument under its own name. -/
   superArgs : List String := []
+  /-- field names that the user `__init__` declares keyword-only (`def __init__(self, a, *, b=1, c=2)`); the
+      interpreted class then takes at most `names.length - kwOnly.length` positional arguments -/
+  kwOnly : List String := []
 
 /-! ### CPython argument binding (model of the calling convention, not of repo code) -/
 
@@ -190,9 +193,12 @@ def interpInit {V : Type} (d : PDef V) (args : List V) (kw : KW V) : Except Err 
   match d.userInit with
   | none => vpInit d args kw
   | some varkw =>
-    match pyBind d.names (alookup d.defaults) varkw args kw with
-    | .error e => .error e
-    | .ok (vals, extra) => vpInit d vals extra
+    if !d.kwOnly.isEmpty && args.length > d.names.length - d.kwOnly.length then
+      .error .typeError                     -- "takes N positional arguments but M were given"
+    else
+      match pyBind d.names (alookup d.defaults) varkw args kw with
+      | .error e => .error e
+      | .ok (vals, extra) => vpInit d vals extra
 
 /-- `getattr(self, name)` -/
 def getAttr {V : Type} (attrs : Attrs V) (name : String) : Except Err V :=
